@@ -95,7 +95,9 @@ Lemma parse_master_consistent : forall input p, parse_master input = Ok p -> con
 Proof.
   intros input p H. unfold parse_master in H.
   destruct (tag input Tables.pfx_ExtM3u); cbn [bind] in H; try discriminate.
+  unfold parse_master_items in H.
   match type of H with context [mrun_lines ?s0 ?l] => destruct (mrun_lines s0 l) end; cbn [bind] in H; try discriminate.
+  unfold finish_master in H.
   match type of H with (if validate_master ?q then _ else _) = _ => destruct (validate_master q) eqn:E end; [|discriminate].
   inversion H; subst. apply validate_iff_consistent. assumption.
 Qed.
